@@ -150,7 +150,12 @@ class Run:
         broken = []
         rc, out = sh([f"{WORK}/bin/goparams", "-repo", "/repo", "-out", f"{COQ}/Gen"], 120, logf=self.log)
         if rc != 0:
-            broken.append(("translator", "tools/goparams failed on /repo: " + out.strip()[-400:]))
+            # the translator reports per generated file; only this property's cone matters here
+            mine = {os.path.basename(f) for f in cone_files(self.pid) if f.startswith("Gen/")}
+            errs = [l for l in out.splitlines() if l.startswith("goparams: ")]
+            hit = [l for l in errs if l.split(": ")[1] in mine]
+            if hit or not errs:
+                broken.append(("translator", "tools/goparams failed on /repo: " + ("; ".join(hit) or out.strip()[-400:])))
         if not os.path.exists(f"{COQ}/Makefile"):
             sh(["coq_makefile", "-f", "_CoqProject", "-o", "Makefile"], 60, cwd=COQ, logf=self.log)
         targets = self.cfg["coq"]
